@@ -42,7 +42,19 @@ TForm ==
     /\ Chk("not.denotes", (Rec.st = "ok" /\ Rec.form = "not") => Same(DenotesNot(Rec.out, Rec.rt), Rec.v))
     /\ Chk("not.no-raw-newline", (Rec.st = "ok" /\ Rec.form = "not") => NoRawNewline(Rec.out))
 
-TNext == TReset \/ TForm
+\* {"ev":"Long","what":..,"n":bytes of the long string,"st","pst","same":parse_notation(out) == value (recorded),
+\*  "outlen":len(out),"out_rl":[[byte,count]..] the notation output in run-length form,
+\*  "top":the value is the bare string,"binhead":[first 5 bytes of the headerless binary form],"binlen":its length}
+\* long string values (around and far beyond 1024 bytes): the output law is evaluated by TLC on the run-length form
+TLong == /\ IsEvent("Long") /\ UNCHANGED tid
+         /\ Env("run-length form covers the whole output", LenRL(Rec.out_rl) = Rec.outlen)
+         /\ Chk("long.format-ok", Rec.st = "ok")
+         /\ Chk("long.parse-ok", Rec.st = "ok" => Rec.pst = "ok")
+         /\ Chk("long.roundtrip", (Rec.st = "ok" /\ Rec.pst = "ok") => Rec.same)
+         /\ Chk("long.no-raw-newline", Rec.st = "ok" => NoRawNewlineRL(Rec.out_rl))
+         /\ Chk("long.output-not-shorter-than-value", Rec.st = "ok" => Rec.outlen >= Rec.n)
+         /\ Chk("long.binary-framing", Rec.top => (Rec.binlen = Rec.n + 5 /\ Rec.binhead = <<115>> \o BE32(Rec.n)))
+TNext == TReset \/ TForm \/ TLong
 TraceSpec == TInit /\ [][TNext]_<<l, tid>>
 TraceAccepted == PrintT("TRACE_REACHED " \o ToString(TLCGet("stats").diameter - 1) \o " OF " \o ToString(Len(TraceLog)))
 ====
